@@ -308,6 +308,14 @@ class Ctx:
         for v in summ["violations"]:
             v["stage"] = tag
             self.violations.append(v)
+        # a kind that was counted but has no stored witness must not get lost (the harness keeps the first witness of every
+        # kind; this is the belt to those braces)
+        have = {v["property"] + "|" + v["what"] for v in summ["violations"]}
+        for kind, n in summ.get("violation_kinds", {}).items():
+            if n > 0 and kind not in have:
+                prop, what = kind.split("|", 1)
+                self.violations.append({"property": prop, "what": what, "stage": tag,
+                                        "witness": {"note": "witness not stored by the harness", "count": n}, "detail": None})
         for s in summ["samples"]:
             if len(self.samples) < 6:
                 self.samples.append(s)
